@@ -581,3 +581,151 @@ Section Flags.
         rewrite (path_merge u q rest Hq). repeat split; assumption.
   Qed.
 End Flags.
+
+Lemma NoDup_snoc {A} (l : list A) a : NoDup l -> ~ In a l -> NoDup (l ++ [a]).
+Proof.
+  induction l as [| x l IH]; intros ND Hn; cbn [app].
+  - constructor; [intros [] | constructor].
+  - inversion ND as [| ? ? Hx Hd]; subst. constructor.
+    + intro H. apply in_app_or in H. destruct H as [H | [H | []]]; [exact (Hx H) |].
+      apply Hn. left. symmetry. exact H.
+    + apply IH; [exact Hd |]. intro H. apply Hn. right. exact H.
+Qed.
+
+Lemma path_push v K : K <> [] -> path ([v] :: K) = path K.
+Proof. intro H. rewrite path_cons by exact H. apply app_nil_r. Qed.
+
+Section FlagLoop.
+  Variable isMulti : pt -> bool.
+
+  Record finv (pref : list pt) (a : astate) : Prop := mkFinv {
+    f_nodup : NoDup (path (fst a));
+    f_flag : forall x, isMulti x = true -> In x (path (fst a)) -> In x (map (hd dp) (fst a));
+    f_incl : incl (path (fst a)) pref;
+    f_done : Forall (@NoDup pt) (snd a) }.
+
+  Lemma finv_init r0 : finv [r0] ([[r0]], []).
+  Proof.
+    constructor; cbn [fst snd path map hd].
+    - constructor; [intros [] | constructor].
+    - intros x _ H. exact H.
+    - apply incl_refl.
+    - constructor.
+  Qed.
+
+  (** the closing phase under the flag invariant *)
+  Lemma fphase r0 vprev v q rest D K2 D2 pref :
+    ainv r0 vprev (q :: rest) -> finv pref (q :: rest, D) -> isMulti v = true \/ v = r0 ->
+    aphase q rest D v = (K2, D2) ->
+    Forall (@NoDup pt) D2 /\ (K2 = [] \/ finv (pref ++ [v]) ([v] :: K2, D2)).
+  Proof.
+    intros Ha [Fn Ff Fi Fd] Hv Eph. cbn [fst snd] in *.
+    assert (Hq : q <> []) by (pose proof (a_ne _ _ _ Ha) as H; inversion H; assumption).
+    assert (Hrest : Forall (fun q => q <> []) rest) by (pose proof (a_ne _ _ _ Ha) as H; inversion H; assumption).
+    destruct (phase_cases _ _ _ _ _ _ Ha _ _ Eph) as [[ring [B [Hc [-> [E [Hh Hr]]]]]] | [Hc [-> [-> [H1 H2]]]]].
+    - assert (HQ : flagQ isMulti q rest).
+      { intros x Fx Hx. destruct (Ff x Fx Hx) as [Q | Q]; [right; left; congruence | left; exact Q]. }
+      destruct (aclose_nodup isMulti rest q v ring K2 Hq Hrest (a_chain _ _ _ Ha) Fn HQ Hc) as [N1 [N2 [N3 N4]]].
+      split; [apply Forall_app; split; [exact Fd | constructor; [exact N1 | constructor]] |].
+      destruct K2 as [| q1 R] eqn:EK; [left; reflexivity | right]. rewrite <- EK in *.
+      assert (HK : K2 <> []) by (rewrite EK; discriminate).
+      constructor; cbn [fst snd]; rewrite ?path_push by exact HK.
+      + exact N2.
+      + intros x Fx Hx. cbn [map hd]. destruct (N4 x Fx Hx) as [Q | Q]; [right; exact Q | left; congruence].
+      + intros x Hx. apply in_or_app. left. apply Fi, N3, Hx.
+      + apply Forall_app; split; [exact Fd | constructor; [exact N1 | constructor]].
+    - split; [exact Fd | right].
+      assert (Hnv : ~ In v (path (q :: rest))).
+      { intro Hin. destruct Hv as [Fv | Ev].
+        - destruct (Ff v Fv Hin) as [Q | Q]; [congruence |].
+          apply in_map_iff in Q. destruct Q as [x [Hx Hin']]. rewrite Forall_forall in H2. apply (H2 x Hin'), Hx.
+        - pose proof (a_bottom _ _ _ Ha) as Hb. destruct rest as [| q1 R].
+          + cbn [last] in Hb. congruence.
+          + rewrite last_cons_ne in Hb by discriminate. rewrite Forall_forall in H2.
+            apply (H2 (last (q1 :: R) [])); [apply last_In; discriminate | congruence]. }
+      constructor; cbn [fst snd]; rewrite ?path_push by discriminate; rewrite ?path_snoc by exact Hq.
+      + apply NoDup_snoc; assumption.
+      + intros x Fx Hx. cbn [map hd]. rewrite hd_app by exact Hq. apply in_app_or in Hx.
+        destruct Hx as [Hx | [Hx | []]]; [right; apply (Ff x Fx Hx) | left; exact Hx].
+      + apply incl_app; [apply incl_appl, Fi | apply incl_appr, incl_refl].
+      + exact Fd.
+  Qed.
+
+  Lemma fstep_nonlast r0 pref v a a' : sinv r0 pref a -> finv pref a ->
+    (isMulti v = false -> ~ In v pref) ->
+    astep isMulti false v a = Some a' -> finv (pref ++ [v]) a'.
+  Proof.
+    intros [Ha _ _] F Hv E. destruct a as [K D]. cbn [fst snd] in *.
+    destruct K as [| q rest]; [discriminate |].
+    assert (Hq : q <> []) by (pose proof (a_ne _ _ _ Ha) as H; inversion H; assumption).
+    cbn [astep] in E. destruct (isMulti v) eqn:Fv; cbn [negb andb] in E.
+    - destruct (aphase q rest D v) as [K2 D2] eqn:Eph. inversion E; subst.
+      destruct (fphase _ _ _ _ _ _ _ _ pref Ha F (or_introl Fv) Eph) as [N [-> | F']]; [| exact F'].
+      constructor; cbn [fst snd path map hd].
+      + constructor; [intros [] | constructor].
+      + intros x _ H. exact H.
+      + intros x [<- | []]. apply in_or_app. right. left. reflexivity.
+      + exact N.
+    - inversion E; subst. destruct F as [Fn Ff Fi Fd]. cbn [fst snd] in *.
+      constructor; cbn [fst snd]; rewrite ?path_snoc by exact Hq.
+      + apply NoDup_snoc; [exact Fn |]. intro H. apply (Hv eq_refl), Fi, H.
+      + intros x Fx Hx. cbn [map]. rewrite hd_app by exact Hq. apply in_app_or in Hx.
+        destruct Hx as [Hx | [Hx | []]]; [apply (Ff x Fx Hx) | congruence].
+      + apply incl_app; [apply incl_appl, Fi | apply incl_appr, incl_refl].
+      + exact Fd.
+  Qed.
+
+  Lemma fstep_last r0 pref a K' D' : sinv r0 pref a -> finv pref a ->
+    astep isMulti true r0 a = Some (K', D') -> Forall (@NoDup pt) D'.
+  Proof.
+    intros [Ha _ _] F E. destruct a as [K D]. cbn [fst snd] in *.
+    destruct K as [| q rest]; [discriminate |].
+    cbn [astep] in E. rewrite andb_false_r in E.
+    destruct (aphase q rest D r0) as [K2 D2] eqn:Eph. cbn [negb] in E.
+    destruct (fphase _ _ _ _ _ _ _ _ pref Ha F (or_intror eq_refl) Eph) as [N _].
+    destruct K2; inversion E; subst. exact N.
+  Qed.
+
+  (** flags contain every vertex that occurs again later in the ring *)
+  Lemma floop r0 : forall l pref a K' D',
+    (forall p1 v p2, pref ++ l = p1 ++ v :: p2 -> (length pref <= length p1)%nat -> isMulti v = false -> ~ In v p1) ->
+    sinv r0 pref a -> finv pref a -> pref <> [] ->
+    aloop isMulti (l ++ [r0]) a = Some (K', D') -> Forall (@NoDup pt) D'.
+  Proof.
+    induction l as [| v l IH]; intros pref a K' D' Hfl Hs Hf Hp E.
+    - cbn [app aloop isnil] in E.
+      destruct (astep isMulti true r0 a) as [[K1 D1] |] eqn:E1; [| discriminate].
+      inversion E; subst. apply (fstep_last r0 pref a K' D' Hs Hf E1).
+    - cbn [app aloop] in E. replace (isnil (l ++ [r0])) with false in E by (destruct l; reflexivity).
+      destruct (astep_nonlast isMulti r0 pref v a Hs Hp) as [a' [E1 Hs']]. rewrite E1 in E.
+      assert (Hf' : finv (pref ++ [v]) a').
+      { apply (fstep_nonlast r0 pref v a a' Hs Hf); [| exact E1].
+        intro Fv. apply (Hfl pref v l eq_refl (le_n _) Fv). }
+      apply (IH (pref ++ [v]) a' K' D'); try assumption.
+      + intros p1 w p2 Esplit Hlen. apply (Hfl p1 w p2); [rewrite <- Esplit, <- app_assoc; reflexivity |].
+        rewrite app_length in Hlen. cbn [length] in Hlen. lia.
+      + intro X. apply app_eq_nil in X. destruct X; discriminate.
+  Qed.
+End FlagLoop.
+
+(** ** summary for the abstract machine *)
+Lemma flagged_prefix_free isMulti (r : ring) :
+  (forall p, (2 <= count_occ pt_dec r p)%nat -> isMulti p = true) ->
+  forall p1 v p2, r = p1 ++ v :: p2 -> isMulti v = false -> ~ In v p1.
+Proof.
+  intros Hfl p1 v p2 E Fv Hin. rewrite (Hfl v) in Fv; [discriminate |].
+  rewrite E, count_occ_app. rewrite count_occ_cons_eq by reflexivity.
+  apply (count_occ_In pt_dec) in Hin. lia.
+Qed.
+
+Theorem asplit_nodup isMulti (r : ring) r0 t K D : r = r0 :: t ->
+  (forall p, (2 <= count_occ pt_dec r p)%nat -> isMulti p = true) ->
+  aloop isMulti (t ++ [r0]) ([[r0]], []) = Some (K, D) -> Forall (@NoDup pt) D.
+Proof.
+  intros Er Hfl E.
+  apply (floop isMulti r0 t [r0] ([[r0]], []) K D); try assumption.
+  - intros p1 v p2 Es _. apply (flagged_prefix_free isMulti r Hfl p1 v p2). rewrite Er. exact Es.
+  - apply sinv_init.
+  - apply finv_init.
+  - discriminate.
+Qed.
